@@ -206,6 +206,10 @@ def c19_scenarios(tier, seed):
     for k, (delays, w, sig, at, extra) in enumerate(dl):
         out.append(scen(700 + k, num_workers=w, client_stats=True, probe_socks=8, probe_rounds=1, delays=delays, load={"clients": 4, "requests": 200},
                         signal={"sig": sig, "mode": "load", "delay_ms": at, "limit_ms": 6000}, **extra))
+    # health-check connections that only connect and read (they send nothing), more that are opened and held silent through
+    # the signal
+    out.append(scen(730, num_workers=2, health_check=True, hc_conns=3, hc_hold=3, probe_socks=8, probe_rounds=1,
+                    signal={"sig": "INT", "mode": "idle", "delay_ms": 300, "limit_ms": 5000}))
     # the smallest status interval the configuration accepts (0 s): the reporter is due at every pass
     out.append(scen(720, num_workers=2, client_stats=True, status_interval=0, probe_socks=8, probe_rounds=1, load={"clients": 4, "requests": 100},
                     signal={"sig": "TERM", "mode": "load", "delay_ms": 1500, "limit_ms": 5000}))
